@@ -177,7 +177,8 @@ open DTML.Quote DTML.VarPipe
 def generate():
     try:
         stages, null_test, test, lines, final = pieces()
-    except Untranslatable as e:
+    except (Untranslatable, AttributeError, IndexError, KeyError, TypeError, ValueError) as e:
+        # (a shape of the source the translator does not even recognise counts as outside the translated fragment)
         why = str(e).replace('-/', '- /')
         return HEADER + ('/- Var.render could not be translated: %s -/\n'
                          'def varRenderStages : List String := []\ndef varNullTest : String := ""\n'
